@@ -217,6 +217,23 @@ def run(ctx):
                         bad = "the exported file does not show the computed graph: nodes %s edges %s" % (sorted(dn), sorted(de))
                 except BaseException as e:
                     bad = "the exported graph file cannot be read: %s" % e
+            if bad is None and entry["kind"] == "eval":
+                # the same evaluation again, on the store that now holds every result: the graph is a function of the code, not of
+                # what the store happens to hold
+                out2 = os.path.join(s.dir, "graph_warm.dot")
+                rw, _ = s.run(entry, {"export_graph": out2})
+                res.evaluations += 1
+                res.count("exports_on_the_warm_store")
+                if rw["error"] is not None:
+                    bad = "the evaluation with graph export fails on the store that holds the results of the first one: %s" % (rw["error"],)
+                else:
+                    try:
+                        dn2, de2 = parse_dot(open(out2).read())
+                        if dn2 != dn or sorted(de2) != sorted(de):
+                            bad = "the graph exported on the warm store differs from the one exported on the cold store: nodes %s edges %s (cold: nodes %s edges %s)" % (
+                                sorted(dn2), sorted(de2), sorted(dn), sorted(de))
+                    except BaseException as e:
+                        bad = "the graph file exported on the warm store cannot be read: %s" % e
             if bad:
                 res.violations.append({"what": bad, "input": case, "kf": None})
                 continue
